@@ -190,6 +190,10 @@ def sequences(ctx, case):
             e = ctx.choose(texts, 'text%d' % k)
             w.plugin.invoke_command(ctx.choose(['breakpoint ', 'b '], 'spelling') + e[0] if k == 0 else 'breakpoint ' + e[0])
             st = c12.fold(st, e)
+        # what is DISPLAYED is another matter (C06): a filter that hides the messages changes nothing about halting and the notice
+        filt = ctx.choose([None, '!', '.m3'], 'display_filter')
+        if filt is not None:
+            w.plugin.invoke_command('filter ' + filt)
         if w.plugin.paused():
             w.plugin.invoke_command('resume')
         names = [ctx.choose(['m1', 'm3', 'm4'], 'first_message'), ctx.choose(['m1', 'm3'], 'second_message')]
